@@ -47,6 +47,23 @@ def dense_to_nested(res, output, size_dict, fixed=()):
     return arr
 
 
+def dense_reference(inputs, output, size_dict, arrays, projected=None):
+    """reference result in the implementation's layout: declared output order, a projected
+    output index stays as an axis of length 1 (the fixed-index section), everything else full"""
+    import numpy as np
+    projected = dict(projected or {})
+    res = dense_einsum(inputs, output, size_dict, arrays, fixed=projected)
+    shape = tuple(1 if ix in projected else size_dict[ix] for ix in output)
+    arr = np.zeros(shape, dtype=object)
+    free_pos = [i for i, ix in enumerate(output) if ix not in projected]
+    for k, v in res.items():
+        full = [0] * len(output)
+        for i, kv in zip(free_pos, k):
+            full[i] = kv
+        arr[tuple(full)] = v
+    return arr
+
+
 def arrays_equal_exact(x, ref):
     """x: implementation result (numpy int array or scalar); ref: object array"""
     import numpy as np
